@@ -33,7 +33,7 @@ def auto_schedules(quick):
     # acknowledgement held back in the network until then (Mrp.tla: Timeout with busy / SendComplete / RetransGo)
     for node in (0, 1):
         for call in ((1, 2) if quick else (1, 2, 3)):
-            for slow_ms in ((700, 1500) if quick else (500, 700, 1000, 1500, 2500)):
+            for slow_ms in ((500, 700, 1000, 1500) if quick else (500, 700, 1000, 1500, 2500)):
                 for held in ((2, 3, 4) if quick else (1, 2, 3, 4, 5, 6)):
                     for delay_ms in ((500, 900) if quick else (300, 500, 700, 900, 1200, 2000)):
                         sch.append([{"op": "Auto", "drop": [], "dup": [], "slow": [[node, call, slow_ms]], "delay": [[held, delay_ms]]}])
